@@ -156,6 +156,14 @@ def p_getattr(self, it_, name):
         return PBuiltin(write_text, 'write_text')
     if name == 'read_text':
         raise OutsideSubset('Path.read_text')
+    if name in ('rename', 'replace'):        # POSIX: both replace an existing target atomically (os.rename / os.replace)
+        def rename(it__, target):
+            st_ = it__.to_str(target)
+            na = fs.state(s)
+            if na[1] == 'absent': raise_os('FileNotFoundError', s)
+            fs.set(st_, na[1], na[2]); fs.set(s, 'absent'); fs.effect('replace', s, st_)
+            return PM(st_)
+        return PBuiltin(rename, name)
     if name == 'unlink':
         def unlink(it__, missing_ok=False):
             n = fs.state(s)
